@@ -318,6 +318,8 @@ def run_case(case, ch, workdir):
                     break
                 if r.pending and r.pending[0] == "sleep":
                     sim.probe("resub_slept")
+                    if abs(r.pending[1] - 0.1) < 1e-9:
+                        sim.probe("torn_result_retried")  # load_result's retry sleep
                 sim.step(r, 256)
         res["steps"] = sim.steps
         res["sim_s"] = sim.now - 1_700_000_000.0
